@@ -9,3 +9,7 @@ import SuxModel.Props.C14
 #print axioms Sux.C14.bfv_apply_frame
 #print axioms Sux.C14.bfv_chunk_write_frame
 #print axioms Sux.C14.bfv_set_frame
+#print axioms Sux.C14.bv_history_ignores_garbage
+#print axioms Sux.C14.bfv_history_ignores_garbage
+#print axioms Sux.C14.bv_history_frame
+#print axioms Sux.C14.bfv_history_frame
